@@ -55,8 +55,11 @@ pub fn notes(r: &mut Rng, n: u64, x: &mut Exec, sink: &mut Sink) {
                 2 => (b"GNU\0".to_vec(), r.below(6), { let k = r.below(9) as usize; r.bytes(k) }),
                 _ => {
                     let mut nm = gen_name(r);
+                    // sizes in the windows around 2^8 (and rarely 2^16): a size kept in too narrow an integer shows there
+                    if r.chance(1, 25) { let k = *r.pick(&[250usize, 255, 256, 257, 300]); nm = (0..k).map(|i| b'a' + (i % 26) as u8).collect(); }
                     for _ in 0..r.below(3) { nm.push(0); }
-                    (nm, if r.chance(1, 5) { r.edge64() & 0xffff_ffff } else { r.below(8) }, { let k = r.below(20) as usize; r.bytes(k) })
+                    (nm, if r.chance(1, 5) { r.edge64() & 0xffff_ffff } else { r.below(8) },
+                     { let k = if r.chance(1, 30) { *r.pick(&[255usize, 256, 257, 65536 + 5]) } else { r.below(20) as usize }; r.bytes(k) })
                 }
             };
             put(&mut buf, name.len() as u64, 4, little);
@@ -73,7 +76,9 @@ pub fn notes(r: &mut Rng, n: u64, x: &mut Exec, sink: &mut Sink) {
             2 if !buf.is_empty() => { let i = r.below(buf.len() as u64) as usize; buf[i] = *r.pick(&[0u8, 1, 0x7f, 0xff]); }
             _ => {}
         }
-        sink.run(x, &json!({"op":"notes","class":class,"es":es,"align":w8(align),"buf":bytes_val(&buf)}));
+        let mut o = json!({"op":"notes","class":class,"es":es,"align":w8(align),"buf":bytes_val(&buf)});
+        if r.chance(1, 2) { o["walk"] = crate::gen::walk_script(r, 3); }
+        sink.run(x, &o);
     }
 }
 
@@ -93,6 +98,94 @@ pub fn ref_sysv_hash(name: &[u8]) -> u32 {
         h &= !g;
     }
     h
+}
+
+/// A name of 8 lower-case letters whose GNU hash is exactly `target` (meet in the middle over 4 + 4 letters:
+/// h(p ++ s) = h(p) * 33^4 + S(s) mod 2^32, and 33 is invertible).  Used to place symbols whose hash, hence
+/// whose chain word, sits at a boundary value (0, 1, all-ones, ...) in well-formed tables.
+pub fn gnu_preimage(r: &mut Rng, target: u32) -> Option<Vec<u8>> {
+    use std::collections::HashMap;
+    use std::sync::OnceLock;
+    static FWD: OnceLock<HashMap<u32, [u8; 4]>> = OnceLock::new();
+    let fwd = FWD.get_or_init(|| {
+        let mut m = HashMap::with_capacity(460_000);
+        for a in b'a'..=b'z' { for b in b'a'..=b'z' { for c in b'a'..=b'z' { for d in b'a'..=b'z' {
+            m.insert(ref_gnu_hash(&[a, b, c, d]), [a, b, c, d]);
+        } } } }
+        m
+    });
+    let m4: u32 = 33u32.wrapping_pow(4);
+    let mut inv: u32 = 1;                               // Newton iteration for m4^-1 mod 2^32
+    for _ in 0..6 { inv = inv.wrapping_mul(2u32.wrapping_sub(m4.wrapping_mul(inv))); }
+    let start = r.below(456_976);
+    for k in 0..456_976u64 {
+        let mut v = (start + k) % 456_976;
+        let mut sfx = [0u8; 4];
+        for i in (0..4).rev() { sfx[i] = b'a' + (v % 26) as u8; v /= 26; }
+        let ssum = sfx.iter().fold(0u32, |acc, c| acc.wrapping_mul(33).wrapping_add(*c as u32));
+        let need = target.wrapping_sub(ssum).wrapping_mul(inv);
+        if let Some(pfx) = fwd.get(&need) {
+            let mut name = pfx.to_vec();
+            name.extend_from_slice(&sfx);
+            debug_assert_eq!(ref_gnu_hash(&name), target);
+            return Some(name);
+        }
+    }
+    None
+}
+
+/// A NUL-free byte string after which the gABI hash state has its low 28 bits in 0xffffff1..=0xfffffff, so that
+/// the next byte >= 0x10 carries out of 32 bits in (h << 4) + c.  Constructed, not searched: the state is (up to
+/// the two top-nibble folds) the base-16 number whose "digits" are the bytes, so the bytes are read off the target
+/// from the low end; eight printable bytes, or seven arbitrary ones without any fold.
+pub fn sysv_carry_prefix(r: &mut Rng) -> Option<Vec<u8>> {
+    let step = |h: u32, c: u8| -> u32 { let mut h = (h << 4).wrapping_add(c as u32); let g = h & 0xf000_0000; if g != 0 { h ^= g >> 24; } h & !g };
+    // bytes c_1..c_k in lo..=hi with sum c_i * 16^(k-i) == v
+    fn rep(v: u64, k: usize, lo: u8, hi: u8, r: &mut Rng, out: &mut Vec<u8>) -> bool {
+        if k == 1 { if v >= lo as u64 && v <= hi as u64 { out.push(v as u8); return true; } return false; }
+        let mut cands: Vec<u8> = (lo..=hi).filter(|c| (*c as u64) % 16 == v % 16 && (*c as u64) <= v).collect();
+        for i in (1..cands.len()).rev() { let j = r.below(i as u64 + 1) as usize; cands.swap(i, j); }
+        for c in cands { if rep((v - c as u64) / 16, k - 1, lo, hi, r, out) { out.push(c); return true; } }
+        false
+    }
+    let t: u32 = 0x0fff_fff1 + r.below(15) as u32;
+    let check = |v: &Vec<u8>| v.iter().fold(0u32, |h, c| step(h, *c)) == t;
+    if r.chance(1, 3) {
+        let mut v = Vec::new();
+        if rep(t as u64, 7, 1, 0xff, r, &mut v) && check(&v) { return Some(v); }
+    }
+    for _ in 0..200 {
+        let (g1, g0) = (r.below(16) as u32, r.range(2, 7) as u32);        // the nibbles folded at the last two steps
+        let t8: u64 = ((g1 as u64) << 28) | (t ^ (g1 << 4)) as u64;
+        let c7 = 0x20 + 0x10 * r.below(6) as u8 + (t8 % 16) as u8;
+        if !(0x21..=0x7e).contains(&c7) || (c7 as u64) > t8 { continue; }
+        let h7 = ((t8 - c7 as u64) / 16) as u32;
+        let v7: u64 = ((g0 as u64) << 28) | (h7 ^ (g0 << 4)) as u64;
+        let mut v = Vec::new();
+        if rep(v7, 7, 0x21, 0x7e, r, &mut v) { v.push(c7); if check(&v) { return Some(v); } }
+    }
+    None
+}
+
+/// names whose hashes sit at the boundaries of the lookup's arithmetic
+pub fn boundary_names(r: &mut Rng, which: &str, it: u64) -> Vec<Vec<u8>> {
+    let mut out = Vec::new();
+    if which == "gnu" {
+        const T: [u32; 8] = [0, 1, 0xffff_ffff, 0xffff_fffe, 2, 0x8000_0000, 0x7fff_ffff, 3];
+        let t = T[(it % 8) as usize];
+        if let Some(n) = gnu_preimage(r, t) { out.push(n); }
+        if let Some(n) = gnu_preimage(r, t ^ 1) { out.push(n); }          // same chain word up to the stop bit
+        if let Some(n) = gnu_preimage(r, t) { out.push(n); }              // a second name with the very same hash
+    } else if let Some(p) = sysv_carry_prefix(r) {
+        let hl = p.iter().fold(0u32, |h, c| { let mut h = (h << 4).wrapping_add(*c as u32); let g = h & 0xf000_0000; if g != 0 { h ^= g >> 24; } h & !g });
+        let min = (0x1_0000_0000u64 - ((hl as u64) << 4)) as u8;              // smallest byte that carries
+        for c in [min, min.saturating_sub(1).max(1), 0x7a, 0xff] {
+            let mut n = p.clone(); n.push(c);
+            for _ in 0..r.below(4) { n.push(*r.pick(b"abz_")); }
+            out.push(n);
+        }
+    }
+    out
 }
 
 pub struct SymSet { pub names: Vec<Vec<u8>>, pub strtab: Vec<u8>, pub name_off: Vec<u32> }
@@ -174,12 +267,27 @@ pub fn hash(r: &mut Rng, n: u64, x: &mut Exec, sink: &mut Sink, which: &str) {
         let nm = match r.below(4) { 0 => { let k = r.below(40) as usize; r.bytes(k) } _ => gen_name(r) };
         sink.run(x, &json!({"op": if which == "gnu" { "gnu_hash" } else { "sysv_hash" }, "name": bytes_val(&nm)}));
     }
-    for _ in 0..n {
+    // ... and on names built to sit at the boundaries of the hash arithmetic
+    for it in 0..8 {
+        for nm in boundary_names(r, which, it) {
+            sink.run(x, &json!({"op": if which == "gnu" { "gnu_hash" } else { "sysv_hash" }, "name": bytes_val(&nm)}));
+        }
+    }
+    for it in 0..n {
         let class = *r.pick(&[32u64, 64]);
         let es = *r.pick(&ES_VALUES);
         let little = is_little(es);
-        let nsyms = match r.below(5) { 0 => r.range(1, 3), 1 => r.range(20, 60), _ => r.range(2, 12) } as usize;
+        // the first tables of every shard (and 1 in 8 later) carry names whose hashes sit at the boundaries of the
+        // lookup's arithmetic; they come early in the symbol order so that other names follow them in their chains
+        let special: Vec<Vec<u8>> = if it < 8 || r.chance(1, 8) { boundary_names(r, which, it) } else { vec![] };
+        let nsyms = (match r.below(5) { 0 => r.range(1, 3), 1 => r.range(20, 60), _ => r.range(2, 12) } as usize).max(if special.is_empty() { 0 } else { special.len() + 4 });
         let mut names: Vec<Vec<u8>> = vec![vec![]];
+        let special_absent: Option<Vec<u8>> = if special.len() > 1 && r.chance(1, 2) { Some(special[1].clone()) } else { None };
+        for (i, sp) in special.iter().enumerate() {
+            if i == 1 && special_absent.is_some() { continue; }
+            names.push(sp.clone());
+        }
+        let nspecial = names.len() - 1;
         // a pair of names with the same full hash (djb2: "aB"/"b!", elf_hash: "aa"/"bQ"), optionally embedded
         // in a common prefix/suffix (the collision is preserved), or names whose hashes differ in bit 0 only
         let base: (&[u8], &[u8]) = match r.below(4) {
@@ -193,17 +301,17 @@ pub fn hash(r: &mut Rng, n: u64, x: &mut Exec, sink: &mut Sink, which: &str) {
         let use_pair = r.chance(2, 3);
         let both_present = use_pair && r.chance(1, 2);
         while names.len() < nsyms {
-            let nm = if use_pair && names.len() == 1 { pair.0.clone() }
-                     else if both_present && names.len() == 2 { pair.1.clone() }
+            let nm = if use_pair && names.len() == 1 + nspecial { pair.0.clone() }
+                     else if both_present && names.len() == 2 + nspecial { pair.1.clone() }
                      else if r.chance(1, 10) && names.len() > 1 { names[r.range(1, names.len() as u64 - 1) as usize].clone() } else { gen_name(r) };
             names.push(nm);
         }
-        if both_present && names.len() > 2 && r.chance(1, 2) { names.swap(1, 2); }
+        if both_present && names.len() > 2 + nspecial && r.chance(1, 2) { names.swap(1 + nspecial, 2 + nspecial); }
         let mut absent: Vec<Vec<u8>> = Vec::new();
         let (table, first);
         if which == "gnu" {
-            let symoffset = r.range(1, (nsyms as u64).min(4)) as usize;
-            let nbucket = r.range(1, (nsyms as u64).max(2)) as u32;
+            let symoffset = if nspecial > 0 { 1 } else { r.range(1, (nsyms as u64).min(4)) as usize };
+            let nbucket = if nspecial > 0 { r.range(1, 3) as u32 } else { r.range(1, (nsyms as u64).max(2)) as u32 };
             let mx = if r.chance(1, 4) { 7 } else { 3 };
             let nbloom = 1u32 << r.below(mx);
             let shift = if r.chance(1, 3) { r.below(32) } else { *r.pick(&[0u64, 5, 6, 26, 31]) } as u32;
@@ -219,6 +327,7 @@ pub fn hash(r: &mut Rng, n: u64, x: &mut Exec, sink: &mut Sink, which: &str) {
         if r.chance(1, 8) && strtab.len() > 2 { let k = r.range(1, 2) as usize; strtab.truncate(strtab.len() - k); strtab_cut = true; }
         // unhashed (gnu) names before `first` are absent from the table's point of view unless repeated later
         if use_pair && !both_present { absent.push(pair.1.clone()); }
+        if let Some(sa) = special_absent { absent.push(sa); }
         for _ in 0..3 { absent.push(gen_name(r)); }
         absent.push(vec![]);
         let mut wf = !strtab_cut;
@@ -273,7 +382,7 @@ pub fn hash(r: &mut Rng, n: u64, x: &mut Exec, sink: &mut Sink, which: &str) {
         sink.run(x, &json!({"op":"buf","slot":"st","bytes":bytes_val(&strtab)}));
         sink.run(x, &json!({"op":"hash_wf","kind":which,"class":class,"es":es,"hashslot":"h","symslot":"sy","strslot":"st","wf":wf}));
         let mut qs: Vec<Vec<u8>> = Vec::new();
-        for (i, nm) in names.iter().enumerate() { if i > 0 && (names.len() < 14 || r.chance(1, 4)) { qs.push(nm.clone()); } }
+        for (i, nm) in names.iter().enumerate() { if i > 0 && (names.len() < 14 || r.chance(1, 4) || special.contains(nm)) { qs.push(nm.clone()); } }
         qs.extend(absent);
         for q in qs {
             sink.run(x, &json!({"op": if which == "gnu" { "gnu_find" } else { "sysv_find" }, "class":class,"es":es,
@@ -459,9 +568,13 @@ pub fn symver(r: &mut Rng, n: u64, x: &mut Exec, sink: &mut Sink) {
         // raw iterators on the same bytes (and on adversarial counts / starts)
         let cnt = match r.below(4) { 0 => r.edge64(), 1 => 0, _ => m.needs.len() as u64 + r.below(2) };
         let start = if r.chance(1, 6) { edge_off(r, vb.need.len()) } else { 0 };
-        sink.run(x, &json!({"op":"verneed_iter","class":class,"es":es,"count":w8(cnt),"start":w8(start),"buf":bytes_val(&vb.need)}));
+        let mut o = json!({"op":"verneed_iter","class":class,"es":es,"count":w8(cnt),"start":w8(start),"buf":bytes_val(&vb.need)});
+        if r.chance(1, 2) { o["walk"] = crate::gen::walk_script(r, m.needs.len()); }
+        sink.run(x, &o);
         let cnt = match r.below(4) { 0 => r.edge64(), 1 => 0, _ => m.defs.len() as u64 + r.below(2) };
-        sink.run(x, &json!({"op":"verdef_iter","class":class,"es":es,"count":w8(cnt),"start":w8(0),"buf":bytes_val(&vb.def)}));
+        let mut o = json!({"op":"verdef_iter","class":class,"es":es,"count":w8(cnt),"start":w8(0),"buf":bytes_val(&vb.def)});
+        if r.chance(1, 2) { o["walk"] = crate::gen::walk_script(r, m.defs.len()); }
+        sink.run(x, &o);
     }
 }
 
